@@ -97,9 +97,8 @@ func genC01(rng *rand.Rand, tier string) *sim.Plan {
 				msg++
 				op := sim.Op{K: "publish", C: i, Topic: pick(rng, names), QoS: byte(rng.IntN(3)), Payload: fmt.Sprintf("m%d", msg), NoWait: pipeline}
 				op.Retain = chance(rng, 0.15)
-				if c.Ver == 5 && chance(rng, 0.3) {
-					op.ContentType = sim.Str("text/x")
-					op.UserProps = [][2]string{{"k", "v"}}
+				if c.Ver == 5 && chance(rng, 0.4) {
+					randMsgProps(rng, &op)
 				}
 				if chance(rng, 0.1) {
 					op.PadTo = 1000 + rng.IntN(3000)
@@ -110,7 +109,11 @@ func genC01(rng *rand.Rand, tier string) *sim.Plan {
 		for a := 0; a < rng.IntN(3); a++ {
 			for k := 0; k < 1+rng.IntN(3); k++ {
 				msg++
-				ph.Ops = append(ph.Ops, sim.Op{K: "api_publish", C: -1 - a, Topic: pick(rng, names), QoS: byte(rng.IntN(3)), Payload: fmt.Sprintf("m%d", msg), Retain: chance(rng, 0.1)})
+				op := sim.Op{K: "api_publish", C: -1 - a, Topic: pick(rng, names), QoS: byte(rng.IntN(3)), Payload: fmt.Sprintf("m%d", msg), Retain: chance(rng, 0.1)}
+				if chance(rng, 0.4) {
+					randMsgProps(rng, &op)
+				}
+				ph.Ops = append(ph.Ops, op)
 			}
 		}
 		if mixSubs {
@@ -375,6 +378,16 @@ func oracleC01(p *sim.Plan, out *sim.Outcome) []sim.Violation {
 			for _, g := range got {
 				if g.dup {
 					vs = append(vs, viol("C01", "flags", "dup-first", "client %d received %q with DUP=1 on first transmission", si, trunc(k)))
+				}
+				// C01.content: a copy is the published application message — topic and, towards an MQTT 5 client, its properties
+				if g.rec.Pkt.Topic != op.Topic && (g.rec.Pkt.Props == nil || g.rec.Pkt.Props.TopicAlias == nil) {
+					vs = append(vs, viol("C01", "content", "topic", "client %d received %q under topic %q, published to %q", si, trunc(k), g.rec.Pkt.Topic, op.Topic))
+				}
+				if sc.Ver == 5 {
+					fromV5 := pi.actor < 0 || p.Clients[pi.actor].Ver == 5
+					if d := msgPropsMismatch(op, fromV5, g.rec.Pkt); d != "" {
+						vs = append(vs, viol("C01", "content", "properties", "client %d received %q with %s", si, trunc(k), d))
+					}
 				}
 			}
 			// enumerate feasible expectations
